@@ -1,7 +1,9 @@
 #!/bin/bash
 # usage: try_seed.sh <seed-dir> <PID> [tier] [extra run.py args]  -- applies the seeded change to /repo, runs the check, reverts
+# (the revert runs from a trap so that a closed pipe / interrupt cannot leave /repo modified)
 SD=$1; PID=$2; TIER=${3:-quick}; shift 3 2>/dev/null
+trap 'git -C /repo checkout -- .' EXIT
+trap '' PIPE
 cd /repo && git apply $SD/patch.diff || exit 9
 cd /verif && python3 checks/run.py $PID --tier $TIER "$@" 2>&1 | grep -E "VIOLATION|KNOWN|INCONCLUSIVE|OK:|violation" | cut -c1-260
 echo "exit=${PIPESTATUS[0]}"
-git -C /repo checkout -- .
